@@ -241,3 +241,60 @@ func GridSamples(lo, hi Pt, pad, step float64) []Pt {
 	}
 	return out
 }
+
+// WalksModRotation returns every closed walk of n steps over pts in which consecutive vertices
+// (cyclically) differ and at least one vertex is visited more than once (the walks Contours leaves
+// out: edges traversed two or more times, figure-eights through a vertex, spikes), one
+// representative per cyclic rotation (the lexicographically smallest index sequence).
+func WalksModRotation(pts []Pt, n int) [][]Pt {
+	var out [][]Pt
+	idx := make([]int, n)
+	minimalRotation := func() bool {
+		for r := 1; r < n; r++ {
+			for k := 0; k < n; k++ {
+				a, b := idx[k], idx[(k+r)%n]
+				if b < a {
+					return false
+				} else if a < b {
+					break
+				}
+			}
+		}
+		return true
+	}
+	var rec func(k int)
+	rec = func(k int) {
+		if k == n {
+			if idx[n-1] == idx[0] || !minimalRotation() {
+				return
+			}
+			seen := map[int]bool{}
+			repeat := false
+			for _, j := range idx {
+				if seen[j] {
+					repeat = true
+					break
+				}
+				seen[j] = true
+			}
+			if !repeat {
+				return
+			}
+			c := make([]Pt, n)
+			for i, j := range idx {
+				c[i] = pts[j]
+			}
+			out = append(out, c)
+			return
+		}
+		for j := range pts {
+			if k > 0 && (idx[k-1] == j || j < idx[0]) {
+				continue
+			}
+			idx[k] = j
+			rec(k + 1)
+		}
+	}
+	rec(0)
+	return out
+}
